@@ -239,6 +239,7 @@ class Ref:
                         continue
                     if bool(v) != expected:
                         verdict = False
+                        g.values[(p, nm)] = False      # reading this one ends the group
             else:
                 val = self._eval_expr(e, g, raising)
                 if bool(val) != expected:
